@@ -784,6 +784,23 @@ theorem bins_mean_conserved (ss dims : List Nat) (hl : ss.length = dims.length) 
   push_cast
   rw [div_div, mul_comm]
 
+/-- per-axis factors on a non-regular grid (driver op `binws`): the weighted mean conserves the weighted total,
+for weights of any size (the only hypothesis on the weights is that no bin has total weight zero: there is no
+threshold below which weights count as equal — the seeded `np.allclose` shortcut violates this at small units). -/
+theorem bins_weighted_mean_conserved (ss dims : List Nat) (hl : ss.length = dims.length) (v w : List K)
+    (hv : v.length = fineSizes ss dims) (hw : w.length = fineSizes ss dims)
+    (hpos : ∀ x ∈ binNDs ss dims w, x ≠ 0) :
+    (List.zipWith (· * ·) (binWMeans ss dims v w) (binNDs ss dims w)).sum
+      = (List.zipWith (· * ·) v w).sum := by
+  have hvw : (List.zipWith (· * ·) v w).length = fineSizes ss dims := by simp [hv, hw]
+  unfold binWMeans
+  rw [zipWith_div_mul_cancel _ _ hpos (by rw [binNDs_length _ _ hl _ hvw, binNDs_length _ _ hl _ hw]),
+    binNDs_sum _ _ hl _ hvw]
+
+example : ([2, 1] : List Nat).length = ([1, 2] : List Nat).length ∧
+    (∀ x ∈ binNDs [2, 1] [1, 2] ([1, 2, 1, 3] : List Rat), x ≠ 0) := by
+  constructor <;> decide +kernel
+
 /-- the binned field has one value per coarse pixel -/
 theorem bins_length (ss dims : List Nat) (hl : ss.length = dims.length) (v : List K)
     (h : v.length = fineSizes ss dims) : (binNDs ss dims v).length = size dims :=
